@@ -28,7 +28,7 @@ fn to_ref(t: &Telegram) -> RefFrame {
 
 fn ref_of(bytes: &[u8]) -> RefFrame {
     match rc::decode(bytes) {
-        RefVerdict::Accept(f, n) if n == bytes.len() => f,
+        RefVerdict::Accept(f, n) if n == bytes.len() => f.normalised(),
         o => panic!("generator produced an invalid frame {}: {:?}", hex(bytes), o),
     }
 }
